@@ -368,3 +368,303 @@ Proof.
     rewrite Eb2.
     apply (IH _ u w2 fuel idx (cnt + 1) _ true fnum (wt_of_wval v) Hfu' Huw Hwf' Hall' Hin). lia.
 Qed.
+
+(* ------------------------------------------------------------------ searchStrKey / searchIntKey *)
+(* a map entry as the pair (key, wire value of the map value) *)
+Definition kval (k : mkey) : wval := snd (key_field k).
+Definition ebody (e : mkey * wval) : list Z :=
+  tagb 1 (wt_of_wval (kval (fst e))) ++ wenc_val (kval (fst e)) ++ tagb 2 (wt_of_wval (snd e)) ++ wenc_val (snd e).
+Definition erec (fnum : Z) (e : mkey * wval) : wfield := (fnum, WBytes (ebody e)).
+Definition evalb (e : mkey * wval) : list Z := varint_enc (plen (ebody e)) ++ ebody e.
+Definition wf_entry (e : mkey * wval) : bool :=
+  wf_wval (kval (fst e)) && wf_wval (snd e) && (plen (ebody e) <? 2 ^ 64).
+
+Lemma ebody_wenc k xv : wenc [key_field k; (2, xv)] = ebody (k, xv).
+Proof.
+  unfold ebody, kval. cbn [wenc flat_map fst snd]. rewrite app_nil_r, !wenc_field_tagb. cbn [fst snd].
+  rewrite key_field_fst. rewrite <- !app_assoc. reflexivity.
+Qed.
+
+Lemma erec_enc fnum e : wenc_field (erec fnum e) = tagb fnum 2 ++ evalb e.
+Proof. reflexivity. Qed.
+
+(* the key reader applied behind a key tag answers (matches?, cursor behind the key) *)
+Definition rdkey_ok (buf : list Z) (rdkey : Z -> option (bool * Z)) (matchb : mkey -> bool) (keys : list mkey) : Prop :=
+  forall pre k rest, In k keys -> buf = pre ++ wenc_val (kval k) ++ rest ->
+    rdkey (plen pre) = Some (matchb k, plen pre + plen (wenc_val (kval k))).
+
+Lemma ebody_plen_pos e : 1 <= plen (ebody e).
+Proof.
+  unfold ebody. rewrite !plen_app. unfold tagb.
+  destruct (varint_enc_cons (1 * 8 + wt_of_wval (kval (fst e)))) as [b [t E]]. rewrite E, plen_cons.
+  pose proof (plen_nonneg t). pose proof (plen_nonneg (wenc_val (kval (fst e)))).
+  pose proof (plen_nonneg (varint_enc (2 * 8 + wt_of_wval (snd e)))). pose proof (plen_nonneg (wenc_val (snd e))). lia.
+Qed.
+
+(* one round of the loop on the entry behind whose pair tag the cursor is *)
+Lemma sk_round buf rdkey matchb keys pre e rest fuel fnum :
+  rdkey_ok buf rdkey matchb keys -> In (fst e) keys -> wf_entry e = true ->
+  buf = pre ++ evalb e ++ rest -> 
+  search_key (S fuel) buf rdkey (plen pre) fnum =
+  if matchb (fst e)
+  then let p := plen pre + plen (varint_enc (plen (ebody e))) + plen (tagb 1 (wt_of_wval (kval (fst e)))) + plen (wenc_val (kval (fst e))) in
+       SFound p p
+  else let rd3 := plen pre + plen (evalb e) in
+       if rd3 >=? plen buf then SNotFound
+       else match ctag buf rd3 with
+            | None => SErrRaw
+            | Some (num, _, n3) => if negb (num =? fnum) then SNotFound else search_key fuel buf rdkey (rd3 + n3) fnum
+            end.
+Proof.
+  intros Hrd Hin Hwf Eb. unfold wf_entry in Hwf. apply andb_true_iff in Hwf as [Hwf Hl]. apply andb_true_iff in Hwf as [Hk Hx].
+  apply Z.ltb_lt in Hl. pose proof (ebody_plen_pos e) as Hpos.
+  set (lenb := varint_enc (plen (ebody e))) in *.
+  set (t1 := tagb 1 (wt_of_wval (kval (fst e)))) in *. set (kb := wenc_val (kval (fst e))) in *.
+  set (t2 := tagb 2 (wt_of_wval (snd e))) in *. set (xb := wenc_val (snd e)) in *.
+  assert (E0 : buf = pre ++ lenb ++ (t1 ++ kb ++ t2 ++ xb ++ rest)).
+  { rewrite Eb. unfold evalb. fold lenb. unfold ebody. fold t1 kb t2 xb. repeat rewrite <- app_assoc. reflexivity. }
+  assert (E1 : buf = (pre ++ lenb) ++ t1 ++ (kb ++ t2 ++ xb ++ rest)) by (rewrite E0; repeat rewrite <- app_assoc; reflexivity).
+  assert (E2 : buf = (pre ++ lenb ++ t1) ++ kb ++ (t2 ++ xb ++ rest)) by (rewrite E0; repeat rewrite <- app_assoc; reflexivity).
+  assert (E3 : buf = (pre ++ lenb ++ t1 ++ kb) ++ t2 ++ (xb ++ rest)) by (rewrite E0; repeat rewrite <- app_assoc; reflexivity).
+  assert (E4 : buf = (pre ++ lenb ++ t1 ++ kb ++ t2) ++ xb ++ rest) by (rewrite E0; repeat rewrite <- app_assoc; reflexivity).
+  assert (Hlt : plen pre < plen buf).
+  { rewrite E0, !plen_app. unfold lenb. destruct (varint_enc_cons (plen (ebody e))) as [b [t E]]. rewrite E, plen_cons.
+    pose proof (plen_nonneg t). pose proof (plen_nonneg t1). pose proof (plen_nonneg kb). pose proof (plen_nonneg t2).
+    pose proof (plen_nonneg xb). pose proof (plen_nonneg rest). lia. }
+  cbn [search_key]. destruct (Z.ltb_spec (plen pre) (plen buf)); [|lia].
+  unfold aread_length. rewrite E0 at 1. unfold lenb at 1. rewrite cvar_enc by lia. fold lenb.
+  rewrite E1 at 1. rewrite <- plen_app. unfold t1 at 1. rewrite ctag_enc; [|unfold MAX_FIELD_NUMBER; lia|apply wt_of_wval_ok]. fold t1.
+  replace (plen (pre ++ lenb) + plen t1) with (plen (pre ++ lenb ++ t1)) by (rewrite !plen_app; lia).
+  rewrite (Hrd (pre ++ lenb ++ t1) (fst e) (t2 ++ xb ++ rest) Hin E2). fold kb.
+  destruct (matchb (fst e)).
+  - cbv zeta. rewrite !plen_app. f_equal; lia.
+  - replace (plen (pre ++ lenb ++ t1) + plen kb) with (plen (pre ++ lenb ++ t1 ++ kb)) by (rewrite !plen_app; lia).
+    rewrite E3 at 1. unfold t2 at 1. rewrite ctag_enc; [|unfold MAX_FIELD_NUMBER; lia|apply wt_of_wval_ok]. fold t2.
+    replace (plen (pre ++ lenb ++ t1 ++ kb) + plen t2) with (plen (pre ++ lenb ++ t1 ++ kb ++ t2)) by (rewrite !plen_app; lia).
+    rewrite E4 at 1. unfold xb at 1. rewrite askip_val by exact Hx. fold xb.
+    cbv zeta.
+    replace (plen (pre ++ lenb ++ t1 ++ kb ++ t2) + plen xb) with (plen pre + plen (evalb e)).
+    2:{ unfold evalb. fold lenb. unfold ebody. fold t1 kb t2 xb. rewrite !plen_app. lia. }
+    reflexivity.
+Qed.
+
+(* what the scan answers on the entries es (cursor behind the pair tag of the first one) *)
+Fixpoint sk_expect (matchb : mkey -> bool) (fnum pos : Z) (es : list (mkey * wval)) : sres :=
+  match es with
+  | [] => SNotFound
+  | e :: r =>
+    if matchb (fst e)
+    then let p := pos + plen (varint_enc (plen (ebody e))) + plen (tagb 1 (wt_of_wval (kval (fst e)))) + plen (wenc_val (kval (fst e))) in
+         SFound p p
+    else match r with
+         | [] => SNotFound
+         | _ => sk_expect matchb fnum (pos + plen (evalb e) + plen (tagb fnum 2)) r
+         end
+  end.
+
+Lemma sk_run r : forall buf rdkey matchb keys pre e w2 fuel fnum,
+  rdkey_ok buf rdkey matchb keys -> 1 <= fnum <= MAX_FIELD_NUMBER ->
+  (forall a, In a (e :: r) -> In (fst a) keys /\ wf_entry a = true) -> inert fnum w2 ->
+  buf = pre ++ evalb e ++ wenc (map (erec fnum) r) ++ wenc w2 ->
+  search_key (S (length r) + fuel) buf rdkey (plen pre) fnum = sk_expect matchb fnum (plen pre) (e :: r).
+Proof.
+  induction r as [|e' r IH]; intros buf rdkey matchb keys pre e w2 fuel fnum Hrd Hn Hall Hin Eb.
+  - destruct (Hall e (or_introl eq_refl)) as [Hk Hwf].
+    cbn [length plus]. rewrite (sk_round buf rdkey matchb keys pre e (wenc (map (erec fnum) []) ++ wenc w2) fuel fnum Hrd Hk Hwf Eb).
+    cbn [sk_expect]. destruct (matchb (fst e)); [reflexivity|]. cbv zeta.
+    cbn [map wenc flat_map app] in Eb.
+    assert (Eb' : buf = (pre ++ evalb e) ++ wenc w2) by (rewrite Eb, <- app_assoc; reflexivity).
+    destruct (inert_head (pre ++ evalb e) w2 fnum Hin) as [[-> E]|[num [wt [n [Hlt [Ht Hne]]]]]].
+    + rewrite <- Eb', plen_app in E. rewrite <- E. destruct (Z.geb_spec (plen buf) (plen buf)); [reflexivity|lia].
+    + rewrite <- Eb', plen_app in Hlt, Ht.
+      destruct (Z.geb_spec (plen pre + plen (evalb e)) (plen buf)); [lia|]. rewrite Ht.
+      destruct (Z.eqb_spec num fnum); [contradiction|]. reflexivity.
+  - destruct (Hall e (or_introl eq_refl)) as [Hk Hwf].
+    destruct (Hall e' (or_intror (or_introl eq_refl))) as [Hk' Hwf'].
+    cbn [length plus]. rewrite (sk_round buf rdkey matchb keys pre e (wenc (map (erec fnum) (e' :: r)) ++ wenc w2) _ fnum Hrd Hk Hwf Eb).
+    cbn [sk_expect]. destruct (matchb (fst e)); [reflexivity|]. cbv zeta.
+    assert (Hfe : wf_wfield (erec fnum e') = true).
+    { unfold wf_wfield, erec. cbn [fst snd wf_wval]. unfold wf_entry in Hwf'. apply andb_true_iff in Hwf' as [_ Hl]. rewrite Hl.
+      destruct (Z.leb_spec 1 fnum); [|lia]. destruct (Z.leb_spec fnum MAX_FIELD_NUMBER); [|lia]. reflexivity. }
+    assert (Eb1 : buf = (pre ++ evalb e) ++ wenc_field (erec fnum e') ++ wenc (map (erec fnum) r) ++ wenc w2).
+    { rewrite Eb. cbn [map]. rewrite wenc_cons. repeat rewrite <- app_assoc. reflexivity. }
+    assert (Eb2 : buf = (pre ++ evalb e ++ tagb fnum 2) ++ evalb e' ++ wenc (map (erec fnum) r) ++ wenc w2).
+    { rewrite Eb1, erec_enc. repeat rewrite <- app_assoc. reflexivity. }
+    destruct (record_skip (pre ++ evalb e) (erec fnum e') (wenc (map (erec fnum) r) ++ wenc w2) Hfe) as [Ht _].
+    rewrite <- Eb1, plen_app in Ht. cbn [erec fst snd wt_of_wval] in Ht.
+    assert (Hlt : plen pre + plen (evalb e) < plen buf).
+    { rewrite Eb1, !plen_app. pose proof (wenc_field_plen_pos (erec fnum e')).
+      pose proof (plen_nonneg (wenc (map (erec fnum) r))). pose proof (plen_nonneg (wenc w2)). lia. }
+    destruct (Z.geb_spec (plen pre + plen (evalb e)) (plen buf)); [lia|]. rewrite Ht. rewrite Z.eqb_refl. cbn [negb].
+    replace (plen pre + plen (evalb e) + plen (tagb fnum 2)) with (plen (pre ++ evalb e ++ tagb fnum 2)) by (rewrite !plen_app; lia).
+    apply (IH buf rdkey matchb keys _ e' w2 fuel fnum Hrd Hn); [|exact Hin|exact Eb2].
+    intros a Ha. apply Hall. right. exact Ha.
+Qed.
+
+(* ------------------------------------------------------------------ the key readers *)
+Lemma to_s64_id v : - 9223372036854775808 <= v < 9223372036854775808 -> to_s 64 v = v.
+Proof.
+  intros H. unfold to_s. change (2 ^ (64 - 1)) with 9223372036854775808. change (2 ^ 64) with 18446744073709551616.
+  Z.div_mod_to_equations. lia.
+Qed.
+
+Lemma aread_string_enc pre bs rest : plen bs < 2 ^ 64 ->
+  aread_string (pre ++ wenc_val (WBytes bs) ++ rest) (plen pre) = Some (bs, plen pre + plen (wenc_val (WBytes bs))).
+Proof.
+  intros H. pose proof (plen_nonneg bs). unfold aread_string. cbn [wenc_val]. rewrite <- app_assoc.
+  rewrite cvar_enc by lia. rewrite !plen_app. pose proof (plen_nonneg rest).
+  destruct (Z.gtb_spec (plen bs) (plen pre + (plen (varint_enc (plen bs)) + (plen bs + plen rest)) - plen pre - plen (varint_enc (plen bs)))); [lia|].
+  f_equal. f_equal.
+  - rewrite app_assoc. rewrite <- plen_app. rewrite at_app. unfold plen. rewrite Nat2Z.id. apply firstn_app_len.
+  - lia.
+Qed.
+
+Lemma le_dec_at n pre v rest : 0 <= v < 256 ^ Z.of_nat n ->
+  le_dec n (at_ (pre ++ le_enc n v ++ rest) (plen pre)) = v.
+Proof. intros H. rewrite at_app. apply le_dec_enc. exact H. Qed.
+
+Lemma kind_is_int_cases k : kind_is_int k = true -> In k [5; 3; 15; 16; 18; 17; 13; 4; 7; 6].
+Proof.
+  unfold kind_is_int. intros H.
+  repeat (apply orb_true_iff in H; destruct H as [H|H]); apply Z.eqb_eq in H; subst; cbn; tauto.
+Qed.
+
+Lemma aread_int_enc pre kk v rest : kind_is_int kk = true -> scalar_okb kk v = true ->
+  aread_int (pre ++ wenc_val (scalar_to_wire kk v) ++ rest) (plen pre) kk =
+  Some (to_s 64 v, plen pre + plen (wenc_val (scalar_to_wire kk v))).
+Proof.
+  intros Hk Hok. apply kind_is_int_cases in Hk. cbn [In] in Hk.
+  change (2 ^ 64) with 18446744073709551616 in *.
+  repeat (destruct Hk as [<-|Hk]); try contradiction;
+  unfold scalar_okb in Hok; cbn [Z.eqb Pos.eqb orb] in Hok;
+  unfold aread_int, scalar_to_wire, scalar_of_u, wt_of_kind; cbn [Z.eqb Pos.eqb orb wenc_val];
+  change (2 ^ 64) with 18446744073709551616; change (2 ^ 32) with 4294967296.
+  (* 5 int32 *)
+  - kill_bounds Hok. rewrite cvar_enc by (change (2 ^ 64) with 18446744073709551616; apply Z.mod_pos_bound; lia).
+    rewrite to_s32_mod64 by lia. reflexivity.
+  (* 3 int64 *)
+  - kill_bounds Hok. rewrite cvar_enc by (change (2 ^ 64) with 18446744073709551616; apply Z.mod_pos_bound; lia).
+    rewrite to_s64_mod64 by lia. reflexivity.
+  (* 15 sfixed32 *)
+  - kill_bounds Hok. rewrite !plen_app, le_enc_plen. pose proof (plen_nonneg rest). cbn [Z.of_nat Pos.of_succ_nat Pos.succ].
+    destruct (Z.leb_spec (plen pre + 4) (plen pre + (4 + plen rest))); [|lia].
+    rewrite le_dec_at by (change (256 ^ Z.of_nat 4) with 4294967296; apply Z.mod_pos_bound; lia).
+    rewrite to_s32_mod32 by lia. rewrite to_s64_id by lia. reflexivity.
+  (* 16 sfixed64 *)
+  - kill_bounds Hok. rewrite !plen_app, le_enc_plen. pose proof (plen_nonneg rest). cbn [Z.of_nat Pos.of_succ_nat Pos.succ].
+    destruct (Z.leb_spec (plen pre + 8) (plen pre + (8 + plen rest))); [|lia].
+    rewrite le_dec_at by (change (256 ^ Z.of_nat 8) with 18446744073709551616; apply Z.mod_pos_bound; lia).
+    rewrite to_s64_mod64 by lia. rewrite to_s64_id by lia. reflexivity.
+  (* 18 sint64 *)
+  - kill_bounds Hok. pose proof (zigzag_enc_range64 v ltac:(lia)).
+    rewrite cvar_enc by (change (2 ^ 64) with 18446744073709551616; lia). rewrite zigzag_dec_enc. reflexivity.
+  (* 17 sint32 *)
+  - kill_bounds Hok. pose proof (zigzag_enc_range32 v ltac:(lia)).
+    rewrite cvar_enc by (change (2 ^ 64) with 18446744073709551616; lia).
+    rewrite Z.mod_small by lia. rewrite zigzag_dec_enc. reflexivity.
+  (* 13 uint32 *)
+  - kill_bounds Hok. rewrite (Z.mod_small v 18446744073709551616) by lia.
+    rewrite cvar_enc by (change (2 ^ 64) with 18446744073709551616; lia). rewrite Z.mod_small by lia. reflexivity.
+  (* 4 uint64 *)
+  - kill_bounds Hok. rewrite (Z.mod_small v 18446744073709551616) by lia.
+    rewrite cvar_enc by (change (2 ^ 64) with 18446744073709551616; lia). reflexivity.
+  (* 7 fixed32 *)
+  - kill_bounds Hok. rewrite !plen_app, le_enc_plen. pose proof (plen_nonneg rest). cbn [Z.of_nat Pos.of_succ_nat Pos.succ].
+    destruct (Z.leb_spec (plen pre + 4) (plen pre + (4 + plen rest))); [|lia].
+    rewrite (Z.mod_small v 4294967296) by lia.
+    rewrite le_dec_at by (change (256 ^ Z.of_nat 4) with 4294967296; lia). rewrite to_s64_id by lia. reflexivity.
+  (* 6 fixed64 *)
+  - kill_bounds Hok. rewrite !plen_app, le_enc_plen. pose proof (plen_nonneg rest). cbn [Z.of_nat Pos.of_succ_nat Pos.succ].
+    destruct (Z.leb_spec (plen pre + 8) (plen pre + (8 + plen rest))); [|lia].
+    rewrite (Z.mod_small v 18446744073709551616) by lia.
+    rewrite le_dec_at by (change (256 ^ Z.of_nat 8) with 18446744073709551616; lia). reflexivity.
+Qed.
+
+(* ------------------------------------------------------------------ the final slice *)
+Definition scalar_tt (tt : Z) : Prop := tt <> T_LIST /\ tt <> T_MAP.
+
+Lemma tt_test_false tt : scalar_tt tt -> (tt =? T_LIST) || (tt =? T_MAP) = false.
+Proof. intros [H1 H2]. destruct (Z.eqb_spec tt T_LIST); [contradiction|]. destruct (Z.eqb_spec tt T_MAP); [contradiction|]. reflexivity. Qed.
+
+(* the cursor is ON the tag of a record (num', w) *)
+Lemma gf_record pre num' w rest lbl t num tt start :
+  wf_wfield (num', w) = true -> desc_packed lbl t = false -> elem_wt t = wt_of_wval w -> scalar_tt tt ->
+  gbp_final all_fixes (pre ++ wenc_field (num', w) ++ rest) lbl t num tt start (plen pre) = GFoundA tt (wenc_val w) 0.
+Proof.
+  intros Hf Hp He Ht. unfold gbp_final. rewrite (tt_test_false _ Ht), Hp.
+  destruct (record_skip pre (num', w) rest Hf) as [Hc Hs]. cbn [fst snd] in Hc, Hs. rewrite Hc, He, Hs.
+  pose proof (plen_nonneg (tagb num' (wt_of_wval w))). pose proof (plen_nonneg (wenc_val w)).
+  rewrite wenc_field_tagb. cbn [fst snd]. rewrite plen_app.
+  destruct (Z.ltb_spec (plen pre + (plen (tagb num' (wt_of_wval w)) + plen (wenc_val w))) (plen pre + plen (tagb num' (wt_of_wval w)))); [lia|].
+  f_equal.
+  replace (pre ++ (tagb num' (wt_of_wval w) ++ wenc_val w) ++ rest)
+    with ((pre ++ tagb num' (wt_of_wval w)) ++ wenc_val w ++ rest) by (repeat rewrite <- app_assoc; reflexivity).
+  replace (plen pre + plen (tagb num' (wt_of_wval w))) with (plen (pre ++ tagb num' (wt_of_wval w))) by (rewrite plen_app; lia).
+  replace (plen pre + (plen (tagb num' (wt_of_wval w)) + plen (wenc_val w))) with (plen (pre ++ tagb num' (wt_of_wval w)) + plen (wenc_val w)) by (rewrite plen_app; lia).
+  apply slice_app.
+Qed.
+
+(* the cursor is on an element of a packed payload *)
+Lemma gf_packed_elem pre w rest lbl t num tt :
+  wf_wval w = true -> desc_packed lbl t = true -> elem_wt t = wt_of_wval w -> scalar_tt tt ->
+  gbp_final all_fixes (pre ++ wenc_val w ++ rest) lbl t num tt (plen pre) (plen pre) = GFoundA tt (wenc_val w) 0.
+Proof.
+  intros Hw Hp He Ht. unfold gbp_final. rewrite (tt_test_false _ Ht), Hp, He, askip_val by exact Hw.
+  pose proof (plen_nonneg (wenc_val w)). destruct (Z.ltb_spec (plen pre + plen (wenc_val w)) (plen pre)); [lia|].
+  rewrite slice_app. reflexivity.
+Qed.
+
+(* a packed list: the cursor is on the tag of its single record *)
+Lemma gf_packed_list pre num k xs rest lbl t tt :
+  1 <= num <= MAX_FIELD_NUMBER -> is_numeric k = true -> Forall (fun x => scalar_okb k x = true) xs ->
+  plen (penc k xs) < 9223372036854775808 ->
+  desc_packed lbl t = true -> elem_wt t = wt_of_kind k -> (tt = T_LIST \/ tt = T_MAP) ->
+  gbp_final all_fixes (pre ++ wenc_field (num, WBytes (penc k xs)) ++ rest) lbl t num tt (plen pre) (plen pre)
+  = GFoundA tt (wenc_field (num, WBytes (penc k xs))) (plen xs).
+Proof.
+  intros Hn Hk Hall Hlen Hp He Ht. unfold gbp_final.
+  assert (Ett : (tt =? T_LIST) || (tt =? T_MAP) = true) by (destruct Ht as [-> | ->]; reflexivity). rewrite Ett, Hp.
+  unfold skip_all_elements. change (f703 all_fixes) with true. change (f710 all_fixes) with true.
+  pose proof (plen_nonneg (penc k xs)) as Hp0.
+  set (lenb := varint_enc (plen (penc k xs))). set (tg := tagb num 2).
+  assert (E0 : pre ++ wenc_field (num, WBytes (penc k xs)) ++ rest = pre ++ tg ++ (lenb ++ penc k xs ++ rest)).
+  { rewrite wenc_field_tagb. cbn [fst snd wt_of_wval wenc_val]. fold tg lenb. repeat rewrite <- app_assoc. reflexivity. }
+  rewrite E0. unfold tg at 1. rewrite ctag_enc; [|exact Hn|unfold wt_ok; auto]. fold tg.
+  unfold aread_length. rewrite app_assoc, <- plen_app. unfold lenb at 1.
+  rewrite cvar_enc by (change (2 ^ 64) with 18446744073709551616; lia). fold lenb.
+  rewrite to_s64_small by lia.
+  destruct (Z.ltb_spec (plen (penc k xs)) 0); [lia|]. cbn [orb].
+  assert (Hfit : plen (pre ++ tg) + plen lenb + plen (penc k xs) <= plen ((pre ++ tg) ++ lenb ++ penc k xs ++ rest)).
+  { rewrite !plen_app. pose proof (plen_nonneg rest). lia. }
+  destruct (Z.gtb_spec (plen (pre ++ tg) + plen lenb + plen (penc k xs)) (plen ((pre ++ tg) ++ lenb ++ penc k xs ++ rest))); [lia|].
+  assert (Hxl : (length xs <= length ((pre ++ tg) ++ lenb ++ penc k xs ++ rest))%nat).
+  { rewrite !app_length. pose proof (flat_map_length_ge (fun x => wenc_val (scalar_to_wire k x)) xs (fun x => scalar_enc_cons k x)) as Hx.
+    unfold penc. lia. }
+  replace (Datatypes.S (length ((pre ++ tg) ++ lenb ++ penc k xs ++ rest)))
+    with (length xs + Datatypes.S (length ((pre ++ tg) ++ lenb ++ penc k xs ++ rest) - length xs))%nat by lia.
+  rewrite app_assoc. rewrite <- plen_app. rewrite He.
+  rewrite (sap_run k xs ((pre ++ tg) ++ lenb) rest _ 0 _ Hk Hall eq_refl).
+  rewrite Z.eqb_refl. f_equal; try lia.
+  rewrite <- !app_assoc.
+  replace (plen (pre ++ tg ++ lenb) + plen (penc k xs)) with (plen pre + plen (tg ++ lenb ++ penc k xs)) by (rewrite !plen_app; lia).
+  rewrite wenc_field_tagb. cbn [fst snd wt_of_wval wenc_val]. fold tg lenb.
+  replace (pre ++ tg ++ lenb ++ penc k xs ++ rest) with (pre ++ (tg ++ lenb ++ penc k xs) ++ rest) by (repeat rewrite <- app_assoc; reflexivity).
+  apply slice_app.
+Qed.
+
+(* an unpacked list or a map: the cursor is on the tag of the first record of the run *)
+Lemma gf_run pre num vals w2 lbl t tt :
+  wf_wire (map (pair num) vals) = true -> inert num w2 ->
+  desc_packed lbl t = false -> (tt = T_LIST \/ tt = T_MAP) ->
+  gbp_final all_fixes (pre ++ wenc (map (pair num) vals) ++ wenc w2) lbl t num tt (plen pre) (plen pre)
+  = GFoundA tt (wenc (map (pair num) vals)) (plen vals).
+Proof.
+  intros Hwf Hin Hp Ht. unfold gbp_final.
+  assert (Ett : (tt =? T_LIST) || (tt =? T_MAP) = true) by (destruct Ht as [-> | ->]; reflexivity). rewrite Ett, Hp.
+  unfold skip_all_elements.
+  set (buf := pre ++ wenc (map (pair num) vals) ++ wenc w2).
+  assert (Hlen : (length vals <= length buf)%nat).
+  { unfold buf. rewrite !app_length. pose proof (wenc_length_ge (map (pair num) vals)). rewrite map_length in H. lia. }
+  replace (Datatypes.S (length buf)) with (length vals + Datatypes.S (length buf - length vals))%nat by lia.
+  unfold buf. rewrite sau_run by assumption. f_equal; try lia. apply slice_app.
+Qed.
